@@ -349,3 +349,35 @@ impl FixtureDatabase {
         }
     }
 }
+
+// Verification hooks (see analyzer.rs).
+#[cfg(pytest_language_server_verif)]
+impl FixtureDatabase {
+    pub fn verif_evict_cache_if_needed(&self) {
+        self.evict_cache_if_needed();
+    }
+}
+
+/// Verification hooks: the crate-private text functions.
+#[cfg(pytest_language_server_verif)]
+pub mod verif_text {
+    pub fn format_docstring(docstring: String) -> String {
+        super::string_utils::format_docstring(docstring)
+    }
+
+    pub fn extract_word_at_position(line: &str, character: usize) -> Option<String> {
+        super::string_utils::extract_word_at_position(line, character)
+    }
+
+    pub fn find_function_name_position(
+        content: &str,
+        line: usize,
+        func_name: &str,
+    ) -> (usize, usize) {
+        super::string_utils::find_function_name_position(content, line, func_name)
+    }
+
+    pub fn parameter_has_annotation(lines: &[&str], line: usize, end_char: usize) -> bool {
+        super::string_utils::parameter_has_annotation(lines, line, end_char)
+    }
+}
